@@ -224,9 +224,11 @@ func c16Ops() []qop {
 			}
 			sb.WriteString(sortedJoin(dl) + ";")
 			for _, r := range reqs {
+				var ks []string
 				for k := range an.SecurityDefinitionsForRequirements(r) {
-					sb.WriteString(k + ",")
+					ks = append(ks, k)
 				}
+				sb.WriteString(sortedJoin(ks) + ",") // a map: its iteration order is not part of the answer
 			}
 			return sb.String()
 		})
